@@ -334,6 +334,11 @@ def _tr_expr(e: ast.AST, strs: typing.Set[str], lists: typing.Set[str]) -> typin
         if ta == tb == 'str':
             return '(if py_truthy %s then %s else %s)' % (e.test.id, a, b), 'str'
         raise Unsupported('do_lineprefix: conditional branches')
+    if (isinstance(e, ast.Call) and isinstance(e.func, ast.Name) and e.func.id in ('soft_unicode', 'soft_str', 'str', 'text_type')
+            and len(e.args) == 1 and not e.keywords):
+        v, tv = _tr_expr(e.args[0], strs, lists)     # conversion to text: the identity on the str inputs the model is about
+        if tv == 'str':
+            return v, 'str'
     if isinstance(e, ast.Call) and isinstance(e.func, ast.Attribute) and not e.keywords:
         recv, tr = _tr_expr(e.func.value, strs, lists)
         if e.func.attr == 'splitlines' and not e.args and tr == 'str':
@@ -671,3 +676,209 @@ def gen_jinjarules() -> typing.Tuple[bool, str]:
 
 
 GENERATORS['jinjarules'] = gen_jinjarules
+
+
+# =============================================================================================
+# 'jinjapins' -> Generated/Gen_JinjaPins.v : source-level tie of the MODIFIED python regions outside the lexer tables
+#   * Parser.subparse with Nunavut's additions removed (inner `autoindent`, the two marker-guarded statements) must be the
+#     stock Parser.subparse (both normalised: docstrings, annotations dropped, ast.unparse) -- texts exported, compared in Coq;
+#   * every other Parser method: normalised text digest of the bundled and of the stock method (Gen/JinjaPins.v accepts
+#     "equal to stock" or a reviewed upstream-version difference pinned by digest); rest of parser.py by digest;
+#   * extensions.py: normalised text digest of every method of JinjaAssert / UseQuery, class member lists, every attribute
+#     stored on `self`/`cls` or module-level mutable state (expected: none), and FILTERS['lineprefix'] registration.
+# =============================================================================================
+import hashlib  # noqa: E402
+
+OUT_PINS = os.path.join(gen.GEN_DIR, 'Gen_JinjaPins.v')
+STOCK_PARSER = '/venv/lib/python3.12/site-packages/jinja2/parser.py'
+MARK_TEST = "token.value and token.value.endswith('*')"
+
+
+class _Norm(ast.NodeTransformer):
+    def visit_FunctionDef(self, n):
+        self.generic_visit(n)
+        n.returns = None
+        for a in n.args.args + n.args.kwonlyargs + n.args.posonlyargs:
+            a.annotation = None
+        if n.args.vararg:
+            n.args.vararg.annotation = None
+        if n.args.kwarg:
+            n.args.kwarg.annotation = None
+        if n.body and isinstance(n.body[0], ast.Expr) and isinstance(n.body[0].value, ast.Constant) and isinstance(n.body[0].value.value, str):
+            n.body = n.body[1:] or [ast.Pass()]
+        return n
+
+    def visit_ClassDef(self, n):
+        self.generic_visit(n)
+        if n.body and isinstance(n.body[0], ast.Expr) and isinstance(n.body[0].value, ast.Constant) and isinstance(n.body[0].value.value, str):
+            n.body = n.body[1:] or [ast.Pass()]
+        return n
+
+    def visit_AnnAssign(self, n):
+        self.generic_visit(n)
+        if n.value is None:
+            return None
+        return ast.copy_location(ast.Assign(targets=[n.target], value=n.value), n)
+
+
+class _MaskText(ast.NodeTransformer):
+    """message texts (string constants containing white space) are not part of the pinned shape"""
+
+    def visit_Constant(self, n):
+        if isinstance(n.value, str) and any(ch.isspace() for ch in n.value):
+            return ast.copy_location(ast.Constant(value='<text>'), n)
+        return n
+
+
+class _Demark(ast.NodeTransformer):
+    """removes exactly Nunavut's additions from Parser.subparse"""
+
+    def __init__(self):
+        self.removed = []
+
+    def _block(self, stmts):
+        out = []
+        for st in stmts:
+            if isinstance(st, ast.FunctionDef) and st.name == 'autoindent':
+                self.removed.append('def autoindent')
+                continue
+            if isinstance(st, ast.If) and ast.unparse(st.test) == MARK_TEST:
+                self.removed.append('if marker: ' + ast.unparse(st.body[0]))
+                if st.orelse:
+                    out.extend(self._block(st.orelse))
+                continue
+            out.append(self.generic_visit(st))
+        res, i = [], 0
+        while i < len(out):
+            a = out[i]
+            if (i + 1 < len(out) and isinstance(a, ast.Assign) and ast.unparse(a.targets[0]) == 'rv' and ast.unparse(out[i + 1]) == 'add_data(rv)'):
+                res.append(ast.parse('add_data(%s)' % ast.unparse(a.value)).body[0])
+                i += 2
+                continue
+            res.append(a)
+            i += 1
+        return res
+
+    def generic_visit(self, node):
+        for f in ('body', 'orelse', 'finalbody'):
+            v = getattr(node, f, None)
+            if isinstance(v, list) and v and isinstance(v[0], ast.stmt):
+                setattr(node, f, self._block(v))
+        return node
+
+
+def _sha(text: str) -> str:
+    return hashlib.sha256(text.encode('utf-8')).hexdigest()
+
+
+def _class(mod: ast.Module, name: str) -> ast.ClassDef:
+    for n in mod.body:
+        if isinstance(n, ast.ClassDef) and n.name == name:
+            return n
+    raise Unsupported('class %s not found' % name)
+
+
+def _norm_text(node: ast.AST, mask: bool = True) -> str:
+    import copy
+    n = _Norm().visit(copy.deepcopy(node))
+    if mask:
+        n = _MaskText().visit(n)
+    ast.fix_missing_locations(n)
+    return ast.unparse(n)
+
+
+def _method_digests(cls: ast.ClassDef) -> typing.List[typing.Tuple[str, str]]:
+    return [(m.name, _sha(_norm_text(m))) for m in cls.body if isinstance(m, (ast.FunctionDef, ast.AsyncFunctionDef))]
+
+
+def _rest_digest(mod: ast.Module, classes: typing.Set[str]) -> str:
+    """everything of the module that is not a method of the given classes (imports excluded: they only name the package)"""
+    import copy
+    m = copy.deepcopy(mod)
+    body = []
+    for n in m.body:
+        if isinstance(n, (ast.Import, ast.ImportFrom)):
+            continue
+        if isinstance(n, ast.ClassDef) and n.name in classes:
+            n.body = [x for x in n.body if not isinstance(x, (ast.FunctionDef, ast.AsyncFunctionDef))] or [ast.Pass()]
+        body.append(n)
+    m.body = body
+    return _sha(_norm_text(m))
+
+
+def _pairs(name: str, items) -> str:
+    return 'Definition %s : list (str * str) :=\n [%s].\n' % (name, ';\n  '.join('(%s, %s)' % (_coq_str(a), _coq_str(b)) for a, b in items))
+
+
+def _strs(name: str, items) -> str:
+    return 'Definition %s : list str := [%s].\n' % (name, '; '.join(_coq_str(a) for a in items))
+
+
+def gen_jinjapins() -> typing.Tuple[bool, str]:
+    head = (gen.HEADER % ('%s, %s, %s and %s' % (PARSER, EXT, FILTERS, STOCK_PARSER)) + 'From Verif Require Import Str.\nOpen Scope N_scope.\n\n')
+    try:
+        import copy
+        bp = gen.parse_repo(PARSER)
+        with open(STOCK_PARSER, encoding='utf-8') as f:
+            sp = ast.parse(f.read())
+        bcls, scls = _class(bp, 'Parser'), _class(sp, 'Parser')
+        bsub = copy.deepcopy(find_function(bp, 'Parser', 'subparse'))
+        bsub = _Norm().visit(bsub)
+        dm = _Demark()
+        bsub = _MaskText().visit(dm.generic_visit(bsub))
+        ast.fix_missing_locations(bsub)
+        if sorted(dm.removed) != sorted(['def autoindent', 'if marker: rv = autoindent(rv, token)',
+                                         'if marker: body.append(autoindent(rv if isinstance(rv, list) else [rv], token))']):
+            raise Unsupported('Parser.subparse: the set of marker-specific statements changed: %r' % (dm.removed,))
+        parts = [
+            '(* Parser.subparse of the bundled parser with the three marker-specific pieces removed, and the stock method *)\n'
+            'Definition subparse_bundled_demarked : str :=\n  %s.\n' % _coq_str(ast.unparse(bsub)),
+            'Definition subparse_stock : str :=\n  %s.\n' % _coq_str(_norm_text(find_function(sp, 'Parser', 'subparse'))),
+            _pairs('parser_methods_bundled', _method_digests(bcls)),
+            _pairs('parser_methods_stock', _method_digests(scls)),
+            'Definition parser_rest_bundled : str := %s.\n' % _coq_str(_rest_digest(bp, {'Parser'})),
+        ]
+        ex = gen.parse_repo(EXT)
+        meths, members = [], []
+        for cname in ('JinjaAssert', 'UseQuery'):
+            c = _class(ex, cname)
+            if c.decorator_list or c.keywords or [ast.unparse(b) for b in c.bases] != ['Extension']:
+                raise Unsupported('%s: bases/decorators changed' % cname)
+            for m in c.body:
+                if isinstance(m, (ast.FunctionDef, ast.AsyncFunctionDef)):
+                    if m.decorator_list:
+                        raise Unsupported('%s.%s is decorated' % (cname, m.name))
+                    meths.append(('%s.%s' % (cname, m.name), _sha(_norm_text(m))))
+            members.append((cname, ','.join(ast.unparse(t) if not isinstance(t, (ast.FunctionDef, ast.AsyncFunctionDef)) else 'def ' + t.name
+                                            for t in _Norm().visit(copy.deepcopy(c)).body)))
+        stores = sorted({ast.unparse(n) for n in ast.walk(ex)
+                         if isinstance(n, ast.Attribute) and isinstance(n.ctx, (ast.Store, ast.Del)) and isinstance(n.value, ast.Name)
+                         and n.value.id in ('self', 'cls')}
+                        | {'global ' + ','.join(n.names) for n in ast.walk(ex) if isinstance(n, (ast.Global, ast.Nonlocal))}
+                        | {'call ' + ast.unparse(n.func) for n in ast.walk(ex)
+                           if isinstance(n, ast.Call) and isinstance(n.func, ast.Name) and n.func.id in ('setattr', 'delattr', 'globals', 'vars')})
+        toplevel = []
+        for n in ex.body:
+            if isinstance(n, (ast.Import, ast.ImportFrom)) or (isinstance(n, ast.Expr) and isinstance(n.value, ast.Constant)):
+                continue
+            toplevel.append('class ' + n.name if isinstance(n, ast.ClassDef) else ast.unparse(n)[:80])
+        parts += [_pairs('ext_methods', meths), _pairs('ext_class_members', members), _strs('ext_state_stores', stores),
+                  _strs('ext_toplevel', toplevel)]
+        # FILTERS registration of lineprefix
+        fl = gen.parse_repo(FILTERS)
+        reg = None
+        for n in fl.body:
+            if isinstance(n, ast.Assign) and ast.unparse(n.targets[0]) == 'FILTERS' and isinstance(n.value, ast.Dict):
+                for k, v in zip(n.value.keys, n.value.values):
+                    if isinstance(k, ast.Constant) and k.value == 'lineprefix':
+                        reg = ast.unparse(v)
+        if reg != 'do_lineprefix':
+            raise Unsupported("FILTERS['lineprefix'] is %r" % reg)
+    except (Unsupported, OSError, SyntaxError, ValueError, TypeError, IndexError, AttributeError) as ex_:
+        gen.write_if_changed(OUT_PINS, head + '(* translator failed closed: %s *)\n' % str(ex_).replace('*)', '* )').replace('(*', '( *'))
+        return False, 'C19 pin translator failed closed: %s' % ex_
+    gen.write_if_changed(OUT_PINS, head + '\n'.join(parts))
+    return True, 'ok'
+
+
+GENERATORS['jinjapins'] = gen_jinjapins
